@@ -332,7 +332,8 @@ def frozen_guard(rep, rule, idx, fi, flag="_frozen"):
 def monotone_flag(rep, rule, idx, cls, flag="_frozen"):
     """self.<flag> is assigned True only, except in __init__."""
     n = 0
-    for name, fs in cls.methods.items():
+    family = [cls] + list(idx.bases_of(cls))            # a mixin of the package may hold the flag's only writer
+    for name, fs in [(nm, fs_) for k in family for nm, fs_ in k.methods.items()]:
         for f in fs:
             for st in ast.walk(f.node):
                 if isinstance(st, (ast.Assign, ast.AugAssign)):
@@ -347,7 +348,7 @@ def monotone_flag(rep, rule, idx, cls, flag="_frozen"):
                             rep.check(is_true and isinstance(st, ast.Assign), rule, f.site, f"self.{flag} = {ast.unparse(v)}",
                                       f"the {flag} flag must only ever be set to True after construction (monotone typestate)")
     for f in idx.all_functions():
-        if f.cls is cls:
+        if f.cls in family:
             continue
         for st in ast.walk(f.node):
             if isinstance(st, (ast.Assign, ast.AugAssign)):
